@@ -23,6 +23,7 @@
 #include <boost/mqtt5/impl/unsubscribe_op.hpp>
 
 #include <boost/asio/async_result.hpp>
+#include <boost/asio/consign.hpp>
 #include <boost/system/error_code.hpp>
 
 #include <memory>
@@ -851,7 +852,11 @@ public:
             typename asio::default_completion_token<executor_type>::type
     >
     decltype(auto) async_receive(CompletionToken&& token = {}) {
-        return _impl->async_channel_receive(std::forward<CompletionToken>(token));
+        // the operation keeps the service (and its channel) alive until the handler
+        // is invoked: its cancellation slot refers to the channel until then
+        return _impl->async_channel_receive(
+            asio::consign(std::forward<CompletionToken>(token), _impl)
+        );
     }
 
     /**
